@@ -289,7 +289,10 @@ def _splat(unit: Unit) -> Dict[Dimension, List[Unit]]:
     splatted: Dict[Dimension, List[Unit]] = defaultdict(list)
 
     for factor, exponent in unit.factors.items():
-        if exponent < 0:
+        if exponent < 0 and factor.dimension is Number:
+            # Number is its own inverse, so the reciprocal has to travel with the unit
+            splatted[Number].extend([factor**-1] * abs(exponent))
+        elif exponent < 0:
             splatted[factor.dimension**-1].extend([factor] * abs(exponent))
         else:
             splatted[factor.dimension].extend([factor] * exponent)
@@ -348,7 +351,9 @@ def _find_path_recursive(
     for intermediate, scale in _ratios[start].items():
         offset = _offsets[start].get(intermediate, 0)
         if intermediate == end:
-            return [(scale**exponent, offset**exponent, end**exponent)]
+            return [
+                (scale**exponent, (offset**exponent if offset else 0), end**exponent)
+            ]
 
         path = _find_path_recursive(intermediate, end, visited=visited)
         if not path:
@@ -356,7 +361,7 @@ def _find_path_recursive(
 
         path = [(scale, offset, intermediate)] + list(path)
         path = [
-            (scale**exponent, offset**exponent, unit**exponent)
+            (scale**exponent, (offset**exponent if offset else 0), unit**exponent)
             for scale, offset, unit in path
         ]
         if not best_path or len(path) < len(best_path):
@@ -377,6 +382,11 @@ def _reduce_dimension(start: Unit, end: Unit) -> Tuple[int, Unit, Unit]:
         )
 
     if start.dimension is Number:
+        # Number is its own inverse, so only the exponents of the units themselves
+        # can tell that both are reciprocals
+        exponents = [*start.factors.values(), *end.factors.values()]
+        if all(exponent < 0 for exponent in exponents):
+            return -1, start**-1, end**-1
         return 1, start, end
 
     exponent = gcd(*start.dimension.exponents)
